@@ -830,13 +830,13 @@ Proof.
   assert (Hcur : q_cur q = length inf) by lia.
   unfold step_sim. simpl. unfold q_read. rewrite Hdr. simpl.
   destruct (q_closed q) eqn:Hcl.
-  { simpl. split; [discriminate|]. rewrite R_fdr0, R_fcl0, Hdr, Hcl. simpl.
-    eexists; split; [reflexivity|]. exists inf, que. constructor; auto. }
+  { simpl. split; [discriminate|]. rewrite R_fdr0, R_fcl0, Hdr. simpl.
+    eexists; split; [reflexivity|]. exists inf, que. constructor; auto; congruence. }
   destruct (q_cur q =? length (q_l q))%nat eqn:Hbl.
   { apply Nat.eqb_eq in Hbl. rewrite R_l0, app_length in Hbl.
     assert (que = []) by (destruct que; [reflexivity|simpl in Hbl; lia]). subst que.
-    simpl. split; [discriminate|]. rewrite R_fdr0, R_fcl0, Hdr, Hcl, R_aq0. simpl.
-    eexists; split; [reflexivity|]. exists inf, []. constructor; auto. }
+    simpl. split; [discriminate|]. rewrite R_fdr0, R_fcl0, Hdr, R_aq0. simpl.
+    eexists; split; [reflexivity|]. exists inf, []. constructor; auto; congruence. }
   apply Nat.eqb_neq in Hbl.
   assert (Hque : que <> []).
   { intros ->. rewrite R_l0, app_nil_r in Hbl. lia. }
@@ -845,21 +845,20 @@ Proof.
     as (inf2 & ainf2 & que2 & rs2 & drops2 & x & y & Heq & Hx & Hy & Hf2 & Hq2 & Hss & Hle & Hrw); auto; [lia|].
   rewrite Heq. cbn [fst snd app]. split; [discriminate|].
   cbn [oout_of step_ok]. unfold read_ok.
-  rewrite R_fdr0, R_fcl0, Hdr, Hcl. cbn [negb orb].
-  destruct (a_q s) as [|a0 aq0] eqn:Haq.
-  { exfalso. rewrite R_aq0 in Haq. destruct que; [congruence|discriminate]. }
-  rewrite <- Haq. rewrite split_evs_eq.
+  rewrite R_fdr0, R_fcl0, Hdr. cbn [negb orb].
+  assert (Hm : forall X : option ast, match a_q s with [] => None | _ :: _ => X end = X).
+  { intros X. rewrite R_aq0. destruct que; [congruence|reflexivity]. }
+  rewrite Hm, split_evs_eq.
   destruct (Hrw (a_inf s) (a_handed s) (a_dropped s) 0%Z 0%Z) as (h1 & d1 & Hw).
-  rewrite R_aq0 at 1. rewrite Hw, !Z.eqb_refl. cbn [andb].
+  rewrite <- R_aq0 in Hw. rewrite Hw, !Z.eqb_refl. cbn [andb].
   eexists; split; [reflexivity|].
   exists (inf ++ inf2), que2.
   pose proof (Forall2_length' _ _ _ Hf2) as Hl2.
   constructor; cbn [upd q_set q_l q_cur q_drained q_closed q_max q_limit q_v5 q_ifexp
-                    a_inf a_rem a_q a_cq a_ci a_limit a_v5 a_drained a_closed a_max a_ifexp]; auto.
+                    a_inf a_rem a_q a_cq a_ci a_limit a_v5 a_drained a_closed a_max a_ifexp]; auto; try congruence.
   - apply Forall2_app; auto.
   - rewrite !app_length. lia.
   - rewrite !app_length. lia.
-  - rewrite R_fdr0. auto.
   - eapply tags_ok_subseq; [exact R_tags0|].
     rewrite R_aq0, !map_app, !map_ent_tag, <- app_assoc by assumption.
     apply subseq_app; [apply subseq_refl|assumption].
@@ -867,3 +866,596 @@ Proof.
   - rewrite R_ci0, !app_length. lia.
   - rewrite R_aq0 in R_len0. rewrite !app_length, !map_length in *. lia.
 Qed.
+
+(* ---- Add ---- *)
+Ltac splits := repeat match goal with |- _ /\ _ => split end.
+Lemma inf_rel_expired now e a : inf_rel e a -> aexpired now a = expired now e.
+Proof. intros (_ & _ & Hx & _). unfold aexpired, expired. rewrite Hx. reflexivity. Qed.
+
+(* the first expired in-flight entry *)
+Lemma fei_spec now que : Forall (fun e => is_pub0 e = true) que ->
+  forall inf ainf, Forall2 inf_rel inf ainf -> forall i,
+  match first_expired_inflight now (inf ++ que) i with
+  | None => existsb (aexpired now) ainf = false
+  | Some j => exists k e a, j = (i + k)%nat /\ nth_error inf k = Some e /\ nth_error ainf k = Some a /\
+                inf_rel e a /\ expired now e = true /\ aexpired now a = true /\
+                existsb (aexpired now) ainf = true /\ existsb (aexpired now) (firstn k ainf) = false
+  end.
+Proof.
+  intros Hq inf ainf H. induction H as [|e a inf ainf Hea H IH]; intros i.
+  - simpl. destruct que as [|e r]; simpl; auto. inversion Hq; subst.
+    rewrite (is_pub0_id e) by assumption. reflexivity.
+  - simpl. pose proof Hea as (Hid & _). apply N.eqb_neq in Hid. rewrite Hid.
+    rewrite (inf_rel_expired now e a Hea).
+    destruct (expired now e) eqn:Hx.
+    + exists 0%nat, e, a. simpl. rewrite (inf_rel_expired now e a Hea), Hx.
+      splits; auto; lia.
+    + specialize (IH (S i)). destruct (first_expired_inflight now (inf ++ que) (S i)) as [j|].
+      * destruct IH as (k & e' & a' & Hj & Hn1 & Hn2 & Hr & Hx1 & Hx2 & Hx3 & Hx4).
+        exists (S k), e', a'. simpl. rewrite (inf_rel_expired now e a Hea), Hx. simpl.
+        splits; auto; lia.
+      * simpl. auto.
+Qed.
+
+Definition vidx (now t : N) : list aent -> nat -> option nat :=
+  fix ix (l : list aent) (i : nat) : option nat :=
+    match l with
+    | [] => None
+    | a :: r => if (if t =? 0 then a_rel a && aexpired now a else a_tag a =? t) then Some i else ix r (S i)
+    end.
+
+Lemma vidx_tag now t : t <> 0 -> forall l k a i, NoDup (map a_tag l) -> nth_error l k = Some a -> a_tag a = t ->
+  vidx now t l i = Some (i + k)%nat.
+Proof.
+  intros Ht. apply N.eqb_neq in Ht. induction l as [|x r IH]; intros [|k] a i Hn Hk Hta; simpl in *; try discriminate; rewrite Ht.
+  - inversion Hk; subst. rewrite N.eqb_refl. f_equal. lia.
+  - inversion Hn; subst. destruct (a_tag x =? a_tag a) eqn:Hx.
+    + apply N.eqb_eq in Hx. exfalso. apply H1. rewrite Hx. apply in_map. eapply nth_error_In; eauto.
+    + rewrite (IH k a (S i)); auto. f_equal. lia.
+Qed.
+
+Lemma vidx_rel now : forall l k a i, existsb (aexpired now) (firstn k l) = false -> nth_error l k = Some a ->
+  a_rel a = true -> aexpired now a = true -> vidx now 0 l i = Some (i + k)%nat.
+Proof.
+  induction l as [|x r IH]; intros [|k] a i Hf Hk Hr Hx; simpl in *; try discriminate.
+  - inversion Hk; subst. rewrite Hr, Hx. simpl. f_equal. lia.
+  - apply orb_false_iff in Hf. destruct Hf as [Hf1 Hf2]. rewrite Hf1, andb_false_r.
+    rewrite (IH k a (S i)); auto. f_equal. lia.
+Qed.
+
+Lemma find_tag_nth : forall (l : list aent) k a, NoDup (map a_tag l) -> nth_error l k = Some a ->
+  find_tag (a_tag a) l = Some a /\ remove_tag (a_tag a) l = remove_nth k l.
+Proof.
+  induction l as [|x r IH]; intros [|k] a Hn Hk; simpl in *; try discriminate.
+  - inversion Hk; subst. rewrite N.eqb_refl. auto.
+  - inversion Hn; subst. destruct (a_tag x =? a_tag a) eqn:Hx.
+    + apply N.eqb_eq in Hx. exfalso. apply H1. rewrite Hx. apply in_map. eapply nth_error_In; eauto.
+    + destruct (IH k a H2 Hk) as [-> ->]. auto.
+Qed.
+
+(* the scan of the queued part *)
+Lemma add_scan_skip now : forall l1 l2 i q0, Forall (fun e => e_id e <> 0) l1 ->
+  add_scan now (l1 ++ l2) i q0 = add_scan now l2 (i + length l1)%nat q0.
+Proof.
+  induction l1 as [|e r IH]; intros l2 i q0 H; simpl.
+  - rewrite Nat.add_0_r. reflexivity.
+  - inversion H; subst. unfold e_id in H2. destruct (e_body e) as [m|p].
+    + apply N.eqb_neq in H2. rewrite H2. simpl. rewrite IH by assumption. f_equal. lia.
+    + rewrite IH by assumption. f_equal. lia.
+Qed.
+
+Lemma add_scan_spec now : forall que i q0, Forall (fun e => is_pub0 e = true) que ->
+  match add_scan now que i q0 with
+  | SVictim j DExpired => exists k d, j = (i + k)%nat /\ nth_error que k = Some d /\ expired now d = true /\
+                                     existsb (expired now) que = true
+  | SVictim j DFull => existsb (expired now) que = false /\
+      match q0 with
+      | Some j0 => j = j0
+      | None => exists k d, j = (i + k)%nat /\ nth_error que k = Some d /\ eqos d = 0
+      end
+  | SVictim _ _ => False
+  | SNone => existsb (expired now) que = false /\ q0 = None /\ existsb (fun e => eqos e =? 0) que = false
+  end.
+Proof.
+  induction que as [|e r IH]; intros i q0 H; simpl.
+  - destruct q0; auto.
+  - inversion H as [|? ? He Hr]; subst. destruct (pub0_inv e He) as (m & Hb & Hp).
+    rewrite Hb. apply N.eqb_eq in Hp. rewrite Hp. simpl.
+    destruct (expired now e) eqn:Hx.
+    + exists 0%nat, e. simpl. splits; auto; lia.
+    + assert (Hq : eqos e = m_qos m) by (unfold eqos; rewrite Hb; reflexivity).
+      rewrite Hq. destruct (m_qos m =? 0) eqn:Hq0; simpl.
+      * destruct q0 as [j0|].
+        -- specialize (IH (S i) (Some j0) Hr). destruct (add_scan now r (S i) (Some j0)) as [|j [| | |]]; auto.
+           ++ destruct IH as (_ & Hc & _). discriminate.
+           ++ destruct IH as (k & d & Hj & Hn & Hxd & Hex). exists (S k), d. simpl. splits; auto; lia.
+        -- specialize (IH (S i) (Some i) Hr). destruct (add_scan now r (S i) (Some i)) as [|j [| | |]]; auto.
+           ++ destruct IH as (_ & Hc & _). discriminate.
+           ++ destruct IH as [Hex Hj]. split; auto. exists 0%nat, e. simpl. apply N.eqb_eq in Hq0. splits; auto; lia.
+           ++ destruct IH as (k & d & Hj & Hn & Hxd & Hex). exists (S k), d. simpl. splits; auto; lia.
+      * specialize (IH (S i) q0 Hr). destruct (add_scan now r (S i) q0) as [|j [| | |]]; auto.
+        -- destruct IH as [Hex Hj]. split; auto. destruct q0 as [j0|]; auto.
+           destruct Hj as (k & d & Hj & Hn & Hqd). exists (S k), d. simpl. splits; auto; lia.
+        -- destruct IH as (k & d & Hj & Hn & Hxd & Hex). exists (S k), d. simpl. splits; auto; lia.
+Qed.
+
+Lemma first_queued_skip : forall l1 l2 i, Forall (fun e => e_id e <> 0) l1 ->
+  first_queued (l1 ++ l2) i = first_queued l2 (i + length l1)%nat.
+Proof.
+  induction l1 as [|e r IH]; intros l2 i H; simpl.
+  - rewrite Nat.add_0_r. reflexivity.
+  - inversion H; subst. apply N.eqb_neq in H2. rewrite H2, IH by assumption. f_equal. lia.
+Qed.
+
+Lemma existsb_map {A B} (f : B -> bool) (g : A -> B) l : existsb f (map g l) = existsb (fun x => f (g x)) l.
+Proof. induction l; simpl; congruence. Qed.
+
+Lemma existsb_ext' {A} (f g : A -> bool) l : (forall x, f x = g x) -> existsb f l = existsb g l.
+Proof. intros H. induction l; simpl; congruence. Qed.
+
+Lemma ent_qos e : aqos (ent_of_elem e) = eqos e.
+Proof. unfold ent_of_elem, eqos, aqos. destruct (e_body e); reflexivity. Qed.
+
+Lemma tags_ok_weaken seen t T : tags_ok seen T -> tags_ok (t :: seen) T.
+Proof. intros [Hn Hi]. split; auto. intros x Hx. destruct (Hi x Hx). split; auto. right; auto. Qed.
+
+Lemma inf_ids inf ainf : Forall2 inf_rel inf ainf -> Forall (fun e => e_id e <> 0) inf.
+Proof. intros H. induction H as [|e a l al Hea H IH]; constructor; auto. destruct Hea; auto. Qed.
+
+Lemma subseq_nil {A} (l : list A) : subseq [] l.
+Proof. induction l; constructor; auto. Qed.
+
+Lemma tags_split seen (ainf aq : list aent) : tags_ok seen (map a_tag (ainf ++ aq)) ->
+  NoDup (map a_tag ainf) /\ NoDup (map a_tag aq) /\ (forall a, In a ainf -> a_tag a <> 0).
+Proof.
+  intros [Hn Hi]. rewrite map_app in *. splits.
+  - eapply subseq_NoDup; [|exact Hn]. rewrite <- (app_nil_r (map a_tag ainf)) at 1.
+    apply subseq_app; [apply subseq_refl|apply subseq_nil].
+  - eapply subseq_NoDup; [|exact Hn]. change (map a_tag aq) with ([] ++ map a_tag aq) at 1.
+    apply subseq_app; [apply subseq_nil|apply subseq_refl].
+  - intros a Ha. apply Hi. apply in_or_app. left. apply in_map. assumption.
+Qed.
+
+Lemma Forall_skipn' {A} (P : A -> Prop) l : Forall P l -> forall n, Forall P (skipn n l).
+Proof. intros H. induction H; intros [|n]; simpl; auto. Qed.
+
+Lemma add_ok_expinf now e s t i v :
+  (length (a_inf s) + length (a_q s) <? a_max s)%nat = false ->
+  existsb (aexpired now) (a_inf s) = true ->
+  vidx now t (a_inf s) 0 = Some i -> nth_error (a_inf s) i = Some v -> aexpired now v = true ->
+  add_ok now e [OvInflight (-1); OvDropped t DExpiredInflight] s =
+  Some (upd s (remove_nth i (a_inf s))
+              (if (i <? length (a_inf s) - a_rem s)%nat then a_rem s else (a_rem s - 1)%nat)
+              (a_q s ++ [ent_of_elem e]) (a_added s ++ [a_tag (ent_of_elem e)]) (a_handed s)
+              (a_dropped s ++ [t]) (a_cq s) (a_ci s - 1)%Z).
+Proof.
+  intros H1 H2 H3 H4 H5. unfold add_ok. rewrite H1, H2. unfold vidx in H3. cbv zeta.
+  rewrite H3, H4, H5. reflexivity.
+Qed.
+
+Lemma R_drop_queued q seen s inf que e k d ad ha dr :
+  R q seen s inf que -> is_pub0 e = true -> e_tag e <> 0 -> ~ In (e_tag e) seen ->
+  nth_error que k = Some d ->
+  R (q_set (remove_nth (length inf + k) (q_l q) ++ [e])
+           (if (length inf + k <? q_cur q)%nat then (q_cur q - 1)%nat else q_cur q) (q_drained q) q)
+    (e_tag e :: seen)
+    (upd s (a_inf s) (a_rem s) (remove_nth k (a_q s) ++ [ent_of_elem e]) ad ha dr (a_cq s) (a_ci s))
+    inf (remove_nth k que ++ [e]).
+Proof.
+  intros H Hpub Htag Hns Hk. pose proof (R_len_inf _ _ _ _ _ H) as Hli. destruct H.
+  pose proof (nth_error_lt _ _ _ Hk) as Hkl.
+  assert (Hc : (length inf + k <? q_cur q)%nat = false) by (apply Nat.ltb_ge; lia).
+  rewrite Hc.
+  assert (Hlr : length (remove_nth k (a_q s)) = (length (a_q s) - 1)%nat).
+  { apply remove_nth_length. rewrite R_aq0, map_length. assumption. }
+  assert (Hlq : length (a_q s) = length que) by (rewrite R_aq0, map_length; reflexivity).
+  constructor; simpl; auto.
+  - rewrite R_l0, remove_nth_app2, <- app_assoc. reflexivity.
+  - apply Forall_app. split; [apply Forall_remove_nth; auto|constructor; auto].
+  - rewrite R_aq0, map_app, map_remove_nth. reflexivity.
+  - rewrite app_assoc, map_app. simpl. rewrite ent_tag_pub0 by assumption.
+    apply tags_ok_snoc; auto. eapply tags_ok_subseq; [exact R_tags0|].
+    rewrite !map_app. apply subseq_app; [apply subseq_refl|].
+    rewrite map_remove_nth. apply subseq_remove_nth.
+  - rewrite R_cq0, app_length, Hlr. simpl. lia.
+  - rewrite app_length, Hlr. simpl. lia.
+Qed.
+
+Lemma R_drop_new q seen s inf que t ad ha dr :
+  R q seen s inf que ->
+  R q (t :: seen) (upd s (a_inf s) (a_rem s) (a_q s) ad ha dr (a_cq s) (a_ci s)) inf que.
+Proof.
+  intros H. destruct H. constructor; simpl; auto. apply tags_ok_weaken. assumption.
+Qed.
+
+Lemma add_sim q seen s now e : Rx q seen s -> wf_step q seen (OAdd now e) = true ->
+  step_sim q seen s (OAdd now e).
+Proof.
+  intros (inf & que & H) Hwf. pose proof (R_len_inf _ _ _ _ _ H) as Hli.
+  pose proof H as HR. destruct H.
+  simpl in Hwf.
+  apply andb_true_iff in Hwf; destruct Hwf as [Hwf Hfresh].
+  apply andb_true_iff in Hwf; destruct Hwf as [Hpub Htag].
+  apply negb_true_iff in Hfresh. apply negb_true_iff, N.eqb_neq in Htag.
+  assert (Hns : ~ In (e_tag e) seen) by (rewrite <- memN_In; congruence).
+  destruct (pub0_inv e Hpub) as (m & Hb & Hpid).
+  assert (Hte : a_tag (ent_of_elem e) = e_tag e) by (apply ent_tag_pub0; auto).
+  assert (Hll : length (q_l q) = (length (a_inf s) + length (a_q s))%nat).
+  { rewrite R_l0, R_aq0, app_length, map_length. lia. }
+  assert (Hlq : length (a_q s) = length que) by (rewrite R_aq0, map_length; reflexivity).
+  pose proof (inf_ids _ _ R_inf0) as Hids.
+  destruct (tags_split _ _ _ R_tags0) as (Hnd_inf & Hnd_q & Hnz_inf).
+  unfold step_sim. simpl. unfold q_add.
+  destruct (q_max q <=? length (q_l q))%nat eqn:Hfull.
+  2:{ (* there is room *)
+    apply Nat.leb_gt in Hfull. simpl. split; [discriminate|].
+    unfold add_ok.
+    assert (Hlt : (length (a_inf s) + length (a_q s) <? a_max s)%nat = true) by (apply Nat.ltb_lt; lia).
+    rewrite Hlt. eexists; split; [reflexivity|]. exists inf, (que ++ [e]).
+    constructor; simpl; auto.
+    - rewrite R_l0, app_assoc. reflexivity.
+    - apply Forall_app. split; auto.
+    - rewrite R_aq0, map_app. reflexivity.
+    - rewrite app_assoc, map_app. simpl. rewrite Hte. apply tags_ok_snoc; auto.
+    - rewrite R_cq0, app_length. simpl. lia.
+    - rewrite app_length. simpl. lia. }
+  apply Nat.leb_le in Hfull.
+  assert (Hnlt : (length (a_inf s) + length (a_q s) <? a_max s)%nat = false) by (apply Nat.ltb_ge; lia).
+  unfold add_victim.
+  pose proof (fei_spec now que R_que0 inf (a_inf s) R_inf0 0%nat) as Hfei. rewrite <- R_l0 in Hfei.
+  destruct (first_expired_inflight now (q_l q) 0) as [j|].
+  - (* an expired in-flight entry *)
+    destruct Hfei as (k & d & a & Hj & Hnd & Hna & Hda & Hxd & Hxa & Hex & Hpre). simpl in Hj. subst j.
+    pose proof (nth_error_lt _ _ _ Hnd) as Hk.
+    assert (Hnl : nth_error (q_l q) k = Some d) by (rewrite R_l0, nth_error_app1; auto).
+    rewrite Hnl. simpl. split; [discriminate|].
+    assert (Hvi : vidx now (e_tag d) (a_inf s) 0 = Some k).
+    { pose proof Hda as (_ & _ & _ & Hbd). destruct (e_body d) as [md|pd].
+      - destruct Hbd as (_ & _ & Htd). rewrite <- Htd.
+        apply (vidx_tag now (a_tag a)) with (a := a) (i := 0%nat) (k := k); auto.
+        apply Hnz_inf. eapply nth_error_In; eauto.
+      - destruct Hbd as (Hrel & Htd). rewrite Htd.
+        apply (vidx_rel now) with (a := a) (i := 0%nat) (k := k); auto. }
+    rewrite (add_ok_expinf now e s (e_tag d) k a); auto.
+    eexists; split; [reflexivity|]. exists (remove_nth k inf), (que ++ [e]).
+    assert (Hlr : length (remove_nth k (a_inf s)) = (length (a_inf s) - 1)%nat) by (apply remove_nth_length; lia).
+    rewrite <- R_cur0.
+    constructor; simpl; auto; rewrite ?Hlr.
+    + rewrite R_l0, remove_nth_app1, <- app_assoc by assumption. reflexivity.
+    + apply Forall2_remove_nth. assumption.
+    + apply Forall_app. split; auto.
+    + rewrite R_aq0, map_app. reflexivity.
+    + destruct (Nat.ltb_spec k (q_cur q)); lia.
+    + destruct (Nat.ltb_spec k (q_cur q)); lia.
+    + intros Hd. apply R_dr0 in Hd. destruct (Nat.ltb_spec k (q_cur q)); lia.
+    + rewrite app_assoc, map_app. simpl. rewrite Hte. apply tags_ok_snoc; auto.
+      eapply tags_ok_subseq; [exact R_tags0|]. apply tags_remove_inf.
+    + rewrite R_cq0, app_length. simpl. lia.
+    + rewrite R_ci0. lia.
+    + rewrite app_length. simpl. lia.
+  - (* no expired in-flight entry *)
+    destruct (q_drained q && (q_cur q =? length (q_l q))%nat) eqn:Hdc.
+    + (* nothing queued: the newcomer is dropped *)
+      apply andb_true_iff in Hdc. destruct Hdc as [Hd Hc]. apply Nat.eqb_eq in Hc.
+      apply R_dr0 in Hd.
+      assert (que = []) by (destruct que; [reflexivity|simpl in *; lia]). subst que.
+      simpl. split; [discriminate|]. unfold add_ok. rewrite Hnlt, Hfei, R_aq0. simpl.
+      rewrite Hte, N.eqb_refl. eexists; split; [reflexivity|]. exists inf, [].
+      rewrite <- R_aq0 at 1. apply R_drop_new. assumption.
+    + (* scan of the queued part *)
+      assert (Hskip : skipn (q_cur q) (q_l q) = skipn (q_cur q) inf ++ que).
+      { rewrite R_l0, skipn_app. replace (q_cur q - length inf)%nat with 0%nat by lia. reflexivity. }
+      assert (Hsl : (q_cur q + length (skipn (q_cur q) inf) = length inf)%nat) by (rewrite skipn_length; lia).
+      rewrite Hskip, add_scan_skip, first_queued_skip, Hsl by (apply Forall_skipn'; assumption).
+      assert (Hxq : existsb (aexpired now) (a_q s) = existsb (expired now) que).
+      { rewrite R_aq0, existsb_map. apply existsb_ext'. apply ent_expired. }
+      assert (Hqq : existsb (fun a => aqos a =? 0) (a_q s) = existsb (fun e => eqos e =? 0) que).
+      { rewrite R_aq0, existsb_map. apply existsb_ext'. intros x. rewrite ent_qos. reflexivity. }
+      assert (Hvq : forall k d, nth_error que k = Some d ->
+                find_tag (e_tag d) (a_q s) = Some (ent_of_elem d) /\
+                remove_tag (e_tag d) (a_q s) = remove_nth k (a_q s) /\
+                nth_error (q_l q) (length inf + k) = Some d).
+      { intros k d Hk. assert (Hpd : is_pub0 d = true).
+        { rewrite Forall_forall in R_que0. apply R_que0. eapply nth_error_In; eauto. }
+        rewrite <- (ent_tag_pub0 d Hpd).
+        destruct (find_tag_nth (a_q s) k (ent_of_elem d) Hnd_q) as [Hf Hr].
+        { rewrite R_aq0. apply map_nth_error. assumption. }
+        splits; auto. rewrite R_l0, nth_error_app2 by lia.
+        replace (length inf + k - length inf)%nat with k by lia. assumption. }
+      pose proof (add_scan_spec now que (length inf) None R_que0) as Hsc.
+      destruct (add_scan now que (length inf) None) as [|j r].
+      * (* nothing expired, no QoS 0 queued *)
+        destruct Hsc as (Hnx & _ & Hnq). rewrite Hb.
+        assert (Hqe : aqos (ent_of_elem e) = m_qos m) by (rewrite ent_qos; unfold eqos; rewrite Hb; reflexivity).
+        destruct (m_qos m =? 0) eqn:Hq0.
+        -- (* QoS 0 newcomer is dropped *)
+           simpl. split; [discriminate|]. unfold add_ok.
+           rewrite Hnlt, Hfei, Hxq, Hnx, Hqq, Hnq, Hqe, Hq0, Hte, N.eqb_refl.
+           destruct (a_q s) eqn:Haq; (eexists; split; [reflexivity|]); exists inf, que;
+             rewrite <- Haq; apply R_drop_new; assumption.
+        -- destruct que as [|d que'].
+           ++ (* nothing queued *)
+              simpl. split; [discriminate|]. unfold add_ok.
+              rewrite Hnlt, Hfei, Hxq, Hnx, Hqq, Hnq, R_aq0. simpl. rewrite Hte, N.eqb_refl.
+              eexists; split; [reflexivity|]. exists inf, [].
+              rewrite <- R_aq0 at 1. apply R_drop_new. assumption.
+           ++ (* the oldest queued message is dropped *)
+              inversion R_que0 as [|? ? Hpd Hq']; subst.
+              simpl first_queued. rewrite (is_pub0_id d Hpd). simpl.
+              destruct (Hvq 0%nat d eq_refl) as (Hf & Hr & Hn). rewrite Nat.add_0_r in Hn.
+              rewrite Hn. simpl. split; [discriminate|]. unfold add_ok.
+              rewrite Hnlt, Hfei, Hxq, Hnx, Hqq, Hnq, Hqe, Hq0.
+              destruct (a_q s) as [|o rest] eqn:Haq; [simpl in R_aq0; discriminate|].
+              simpl in R_aq0. inversion R_aq0 as [[Ho Hrest]].
+              rewrite (ent_tag_pub0 d Hpd), N.eqb_refl.
+              eexists; split; [reflexivity|]. exists inf, (que' ++ [e]).
+              pose proof (R_drop_queued q seen s inf (d :: que') e 0%nat d
+                            (a_added s ++ [a_tag (ent_of_elem e)]) (a_handed s) (a_dropped s ++ [e_tag d])
+                            HR Hpub Htag Hns eq_refl) as HR'.
+              rewrite Haq, Nat.add_0_r in HR'. simpl remove_nth in HR'.
+              rewrite Hrest in HR'. exact HR'.
+      * destruct r; try contradiction.
+        -- (* a queued QoS 0 message is dropped *)
+           destruct Hsc as (Hnx & k & d & Hj & Hk & Hqd). subst j.
+           destruct (Hvq k d Hk) as (Hf & Hr & Hn).
+           rewrite Hn. simpl. split; [discriminate|]. unfold add_ok.
+           assert (Heq : existsb (fun e => eqos e =? 0) que = true).
+           { apply existsb_exists. exists d. split; [eapply nth_error_In; eauto|]. rewrite Hqd. reflexivity. }
+           rewrite Hnlt, Hfei, Hxq, Hnx, Hqq, Heq, Hf, ent_qos, Hqd, Hr. simpl.
+           eexists; split; [reflexivity|]. exists inf, (remove_nth k que ++ [e]).
+           apply R_drop_queued with (d := d); assumption.
+        -- (* an expired queued message is dropped *)
+           destruct Hsc as (k & d & Hj & Hk & Hxd & Hex). subst j.
+           destruct (Hvq k d Hk) as (Hf & Hr & Hn).
+           rewrite Hn. simpl. split; [discriminate|]. unfold add_ok.
+           rewrite Hnlt, Hfei, Hxq, Hex, Hf, ent_expired, Hxd, Hr.
+           eexists; split; [reflexivity|]. exists inf, (remove_nth k que ++ [e]).
+           apply R_drop_queued with (d := d); assumption.
+Qed.
+
+(* ------------------------------------------------------------------ *)
+(* 4. every step, then every history                                   *)
+(* ------------------------------------------------------------------ *)
+
+Lemma step_sim_all q seen s o : Rx q seen s -> wf_step q seen o = true -> step_sim q seen s o.
+Proof.
+  intros HR Hwf. destruct o as [now e|now pids|now n|pid|e|c v lim|].
+  - apply add_sim; assumption.
+  - apply read_sim; assumption.
+  - apply readinflight_sim; assumption.
+  - apply remove_sim; assumption.
+  - apply replace_sim; assumption.
+  - apply init_sim; assumption.
+  - apply close_sim; assumption.
+Qed.
+
+(* the list of seen tags at the end of a run *)
+Fixpoint seen_run (q : queue) (seen : list N) (ops : list qop) : list N :=
+  match ops with
+  | [] => seen
+  | o :: r => let '(q', out) := q_step q o in
+              match out with RPanic => seen_step seen o | _ => seen_run q' (seen_step seen o) r end
+  end.
+
+Lemma run_sim : forall ops q seen s, Rx q seen s -> wf_run q seen ops = true ->
+  trace_ok s ops (map oout_of (snd (q_run q ops))) = true /\
+  ~ In RPanic (snd (q_run q ops)) /\
+  exists s', Rx (fst (q_run q ops)) (seen_run q seen ops) s'.
+Proof.
+  induction ops as [|o r IH]; intros q seen s HR Hwf.
+  - simpl. splits; auto. exists s. assumption.
+  - simpl in Hwf. apply andb_true_iff in Hwf. destruct Hwf as [Hwf1 Hwf2].
+    destruct (step_sim_all q seen s o HR Hwf1) as (Hnp & s' & Hok & HR').
+    simpl. destruct (q_step q o) as [q' out] eqn:Hs. simpl in Hnp, Hok, HR'.
+    pose proof (R_inv_ok _ _ _ HR') as Hinv.
+    assert (Hrest : wf_run q' (seen_step seen o) r = true) by (destruct out; auto; congruence).
+    destruct (IH q' (seen_step seen o) s' HR' Hrest) as (Ht & Hn & s'' & HR'').
+    destruct (q_run q' r) as [q'' outs] eqn:Hr. simpl in Ht, Hn, HR''.
+    destruct out; try congruence; simpl; simpl in Hok; rewrite Hok, Hinv; simpl;
+      (splits; [assumption| intros [Hc|Hc]; [discriminate|contradiction] | exists s''; assumption]).
+Qed.
+
+Lemma R_init max ifexp : Rx (q_new max ifexp) [] (a_new max ifexp).
+Proof.
+  exists [], []. constructor; simpl; auto; try lia. split; [constructor|intros t []].
+Qed.
+
+(* (1) no panic for well-formed callers *)
+Lemma q_no_panic max ifexp ops : (1 <= max)%nat ->
+  wf_run (q_new max ifexp) [] ops = true -> ~ In RPanic (snd (q_run (q_new max ifexp) ops)).
+Proof.
+  intros _ Hwf. destruct (run_sim ops _ _ _ (R_init max ifexp) Hwf) as (_ & Hn & _). assumption.
+Qed.
+
+(* (2) refinement of the abstract queue of the statement *)
+Theorem q_refines_abstract max ifexp ops : (1 <= max)%nat ->
+  wf_run (q_new max ifexp) [] ops = true ->
+  c10_ok max ifexp ops (map oout_of (model_outs max ifexp ops)) = true.
+Proof.
+  intros _ Hwf. unfold c10_ok, model_outs.
+  destruct (run_sim ops _ _ _ (R_init max ifexp) Hwf) as (Ht & _ & _). assumption.
+Qed.
+
+(* the simulation step in the form: the abstract queue accepts the model's output, its invariant
+   holds afterwards, and the relation is re-established *)
+Corollary q_step_refines q seen s o : Rx q seen s -> wf_step q seen o = true ->
+  snd (q_step q o) <> RPanic /\
+  exists s', step_ok s o (oout_of (snd (q_step q o))) = Some s' /\ inv_ok s' = true /\
+             Rx (fst (q_step q o)) (seen_step seen o) s'.
+Proof.
+  intros HR Hwf. destruct (step_sim_all q seen s o HR Hwf) as (Hnp & s' & Hok & HR').
+  split; auto. exists s'. splits; auto. eapply R_inv_ok; eauto.
+Qed.
+
+(* ------------------------------------------------------------------ *)
+(* 5. the shape invariant of the model, stated on the model alone      *)
+(* ------------------------------------------------------------------ *)
+
+Definition is_pub (e : elem) : bool := match e_body e with QPub _ => true | QRel _ => false end.
+Definition pub_tags (l : list elem) : list N := map e_tag (filter is_pub l).
+
+(* l = in-flight ++ queued; in-flight entries carry an id, queued ones are PUBLISH without id;
+   the cursor is inside the in-flight part, at its end once drained; tags of PUBLISH entries are
+   distinct, non-zero and were given to Add; PUBREL entries carry tag 0 *)
+Definition shape (q : queue) (seen : list N) : Prop :=
+  exists inf que,
+    q_l q = inf ++ que /\
+    Forall (fun e => e_id e <> 0) inf /\
+    Forall (fun e => is_pub0 e = true) que /\
+    (q_cur q <= length inf)%nat /\
+    (q_drained q = true -> q_cur q = length inf) /\
+    NoDup (pub_tags (q_l q)) /\
+    (forall t, In t (pub_tags (q_l q)) -> t <> 0 /\ In t seen) /\
+    Forall (fun e => is_pub e = false -> e_tag e = 0) (q_l q).
+
+Lemma pub_tags_inf inf ainf : Forall2 inf_rel inf ainf -> subseq (pub_tags inf) (map a_tag ainf).
+Proof.
+  intros H. induction H as [|e a l al Hea H IH]; simpl; [constructor|].
+  unfold pub_tags in *. simpl. destruct Hea as (_ & _ & _ & Hb). unfold is_pub at 1.
+  destruct (e_body e) as [m|p]; simpl.
+  - destruct Hb as (_ & _ & <-). constructor. assumption.
+  - constructor. assumption.
+Qed.
+
+Lemma pub_tags_que que : Forall (fun e => is_pub0 e = true) que -> pub_tags que = map e_tag que.
+Proof.
+  intros H. induction H as [|e l He H IH]; simpl; auto. unfold pub_tags in *. simpl.
+  destruct (pub0_inv e He) as (m & Hb & _). unfold is_pub at 1. rewrite Hb. simpl. congruence.
+Qed.
+
+Lemma Rx_shape q seen s : Rx q seen s -> shape q seen.
+Proof.
+  intros (inf & que & H). pose proof (R_len_inf _ _ _ _ _ H) as Hli. destruct H.
+  assert (Hss : subseq (pub_tags (q_l q)) (map a_tag (a_inf s ++ a_q s))).
+  { rewrite R_l0, R_aq0, map_app, map_ent_tag by assumption. unfold pub_tags.
+    rewrite filter_app, map_app. apply subseq_app; [apply pub_tags_inf; assumption|].
+    fold (pub_tags que). rewrite pub_tags_que by assumption. apply subseq_refl. }
+  destruct (tags_ok_subseq _ _ _ R_tags0 Hss) as [Hnd Hin].
+  exists inf, que. splits; auto.
+  - eapply inf_ids; eauto.
+  - lia.
+  - intros Hd. apply R_dr0 in Hd. lia.
+  - rewrite R_l0. apply Forall_app. split.
+    + clear - R_inf0. induction R_inf0 as [|e a l al Hea H IH]; constructor; auto.
+      destruct Hea as (_ & _ & _ & Hb). unfold is_pub. destruct (e_body e); [discriminate|tauto].
+    + eapply Forall_impl; [|exact R_que0]. intros e He Hp.
+      destruct (pub0_inv e He) as (m & Hb & _). unfold is_pub in Hp. rewrite Hb in Hp. discriminate.
+Qed.
+
+Theorem q_shape max ifexp ops : wf_run (q_new max ifexp) [] ops = true ->
+  shape (fst (q_run (q_new max ifexp) ops)) (seen_run (q_new max ifexp) [] ops).
+Proof.
+  intros Hwf. destruct (run_sim ops _ _ _ (R_init max ifexp) Hwf) as (_ & _ & s' & HR).
+  eapply Rx_shape; eauto.
+Qed.
+
+(* ------------------------------------------------------------------ *)
+(* 6. concrete histories                                               *)
+(* ------------------------------------------------------------------ *)
+
+Definition xm (qos : N) : msg :=
+  {| m_dup := false; m_qos := qos; m_retained := false; m_topic := [116]; m_payload := [49]; m_pid := 0;
+     m_ctype := []; m_corr := []; m_expiry := 0; m_pfmt := 0; m_resp := []; m_subids := []; m_uprops := [] |}.
+Definition xpub (tag qos : N) (exp : option N) : elem :=
+  {| e_tag := tag; e_at := 0; e_expiry := exp; e_body := QPub (xm qos) |}.
+Definition xrel (p : N) : elem := {| e_tag := 0; e_at := 0; e_expiry := None; e_body := QRel p |}.
+Definition xouts max ifexp ops := map oout_of (model_outs max ifexp ops).
+
+(* non-vacuity: add, full-queue drop, read, replace, remove, init(false), partial replays *)
+Definition ex_hist : list qop :=
+  [OInit true false 1000; OReadInflight 0 10;
+   OAdd 0 (xpub 1 1 None); OAdd 0 (xpub 2 1 None); OAdd 0 (xpub 3 0 None);
+   OAdd 0 (xpub 4 1 None);                       (* full: the queued QoS 0 message 3 is dropped *)
+   ORead 0 [5; 6; 7];
+   OReplace (xrel 5); ORemove 6;
+   OAdd 1 (xpub 8 1 None);
+   OInit false false 1000;
+   OReadInflight 100 1;
+   OAdd 105 (xpub 9 1 None);                     (* full: expired in-flight 4, not yet replayed, is dropped *)
+   OReadInflight 106 5; OReadInflight 106 5;
+   ORead 107 [6; 9]; OClose].
+
+Example ex_hist_wf : wf_run (q_new 3 10) [] ex_hist = true.
+Proof. vm_compute. reflexivity. Qed.
+
+Example ex_hist_outs : xouts 3 10 ex_hist =
+  [XUnit; XReadInflight []; XAdd [OvQueue 1]; XAdd [OvQueue 1]; XAdd [OvQueue 1];
+   XAdd [OvDropped 3 DFull];
+   XRead [OPub 1 5 1; OPub 2 6 1; OPub 4 7 1] [OvQueue 0; OvInflight 3];
+   XReplace true; XRemove [OvQueue (-1); OvInflight (-1)];
+   XAdd [OvQueue 1];
+   XUnit;
+   XReadInflight [ORel 5];
+   XAdd [OvInflight (-1); OvDropped 4 DExpiredInflight];
+   XReadInflight []; XReadInflight [];
+   XRead [OPub 8 6 1; OPub 9 9 1] [OvQueue 0; OvInflight 2]; XUnit].
+Proof. vm_compute. reflexivity. Qed.
+
+Example ex_hist_ok : c10_ok 3 10 ex_hist (xouts 3 10 ex_hist) = true.
+Proof. apply q_refines_abstract; [lia|apply ex_hist_wf]. Qed.
+
+(* regression: with the first version of C10O.add_ok (rem' := min (a_rem s) (length inf')) this
+   history was REJECTED by the oracle although the model (and the Go code) behave as the statement
+   says: the expired in-flight entry 2, not yet replayed, is sacrificed while the replay is in
+   progress (cursor = 1), and the replay continues with entry 3 *)
+Definition regress_hist : list qop :=
+  [OInit true false 1000; OReadInflight 0 10;
+   OAdd 0 (xpub 1 1 None); OAdd 0 (xpub 2 1 None); OAdd 0 (xpub 3 1 None);
+   ORead 0 [5; 6; 7]; OInit false false 1000; OReadInflight 100 1;
+   OAdd 105 (xpub 4 1 None); OReadInflight 106 5].
+
+Example regress_wf : wf_run (q_new 3 10) [] regress_hist = true.
+Proof. vm_compute. reflexivity. Qed.
+
+Example regress_outs : xouts 3 10 regress_hist =
+  [XUnit; XReadInflight []; XAdd [OvQueue 1]; XAdd [OvQueue 1]; XAdd [OvQueue 1];
+   XRead [OPub 1 5 1; OPub 2 6 1; OPub 3 7 1] [OvQueue 0; OvInflight 3];
+   XUnit; XReadInflight [OPub 1 5 1];
+   XAdd [OvInflight (-1); OvDropped 2 DExpiredInflight];
+   XReadInflight [OPub 3 7 1]].
+Proof. vm_compute. reflexivity. Qed.
+
+Example regress_ok : c10_ok 3 10 regress_hist (xouts 3 10 regress_hist) = true.
+Proof. vm_compute. reflexivity. Qed.
+
+(* the rungs of the drop ladder, max = 2 *)
+Definition ladder_pre : list qop := [OInit true false 1000; OReadInflight 0 10].
+
+(* expired queued message first, even behind a QoS 0 one *)
+Example ladder_expired_queued :
+  xouts 2 0 (ladder_pre ++ [OAdd 0 (xpub 1 0 None); OAdd 0 (xpub 2 1 (Some 50)); OAdd 100 (xpub 3 1 None)]) =
+  [XUnit; XReadInflight []; XAdd [OvQueue 1]; XAdd [OvQueue 1]; XAdd [OvDropped 2 DExpired]].
+Proof. vm_compute. reflexivity. Qed.
+
+(* then a queued QoS 0 message, even if it is not the oldest *)
+Example ladder_queued_qos0 :
+  xouts 2 0 (ladder_pre ++ [OAdd 0 (xpub 1 1 None); OAdd 0 (xpub 2 0 None); OAdd 0 (xpub 3 1 None)]) =
+  [XUnit; XReadInflight []; XAdd [OvQueue 1]; XAdd [OvQueue 1]; XAdd [OvDropped 2 DFull]].
+Proof. vm_compute. reflexivity. Qed.
+
+(* then the oldest queued message *)
+Example ladder_oldest :
+  xouts 2 0 (ladder_pre ++ [OAdd 0 (xpub 1 1 None); OAdd 0 (xpub 2 1 None); OAdd 0 (xpub 3 1 None)]) =
+  [XUnit; XReadInflight []; XAdd [OvQueue 1]; XAdd [OvQueue 1]; XAdd [OvDropped 1 DFull]].
+Proof. vm_compute. reflexivity. Qed.
+
+(* a QoS 0 newcomer is dropped itself *)
+Example ladder_newcomer_qos0 :
+  xouts 2 0 (ladder_pre ++ [OAdd 0 (xpub 1 1 None); OAdd 0 (xpub 2 1 None); OAdd 0 (xpub 3 0 None)]) =
+  [XUnit; XReadInflight []; XAdd [OvQueue 1]; XAdd [OvQueue 1]; XAdd [OvDropped 3 DFull]].
+Proof. vm_compute. reflexivity. Qed.
+
+(* nothing queued (everything in flight): the newcomer is dropped; an expired in-flight PUBREL
+   is sacrificed first and reported with tag 0 *)
+Example ladder_nothing_queued :
+  xouts 2 10 (ladder_pre ++ [OAdd 0 (xpub 1 1 None); OAdd 0 (xpub 2 1 None); ORead 0 [5; 6];
+                            OAdd 1 (xpub 3 1 None); OReplace (xrel 5); OAdd 100 (xpub 4 1 None);
+                            OReplace {| e_tag := 0; e_at := 0; e_expiry := Some 150; e_body := QRel 5 |};
+                            OAdd 200 (xpub 5 1 None)]) =
+  [XUnit; XReadInflight []; XAdd [OvQueue 1]; XAdd [OvQueue 1];
+   XRead [OPub 1 5 1; OPub 2 6 1] [OvQueue 0; OvInflight 2];
+   XAdd [OvDropped 3 DFull]; XReplace true;
+   XAdd [OvInflight (-1); OvDropped 2 DExpiredInflight];
+   XReplace true;
+   XAdd [OvInflight (-1); OvDropped 0 DExpiredInflight]].
+Proof. vm_compute. reflexivity. Qed.
